@@ -381,11 +381,11 @@ def build_mock_panics(env, reps):
     rnd = env.rnd
     cw = cl.CaseW()
     for r in range(reps):
-        aead = (0x7777, 0x7778, 0x7779, 0x777A)[r % 4]
-        nn = {0x7777: 12, 0x7778: 24, 0x7779: 8, 0x777A: 13}[aead]
+        aead = (0x7777, 0x7778, 0x7779, 0x777A, 0x777B, 0x777C)[r % 6]
+        nn = {0x7777: 12, 0x7778: 24, 0x7779: 8, 0x777A: 13, 0x777B: 12, 0x777C: 12}[aead]
         kdf = [1, 3][r % 2]
         s = cw.session(gen.KEMS[r % 4], kdf, aead, sid="mp%d" % r)
-        key, bn, es = g.raw(32), g.raw(nn), g.raw({1: 32, 3: 64}[kdf])
+        key, bn, es = g.raw(64 if aead == 0x777B else 32), g.raw(nn), g.raw({1: 32, 3: 64}[kdf])
         s.call("raw_s", key=key, bn=bn, es=es, out="S")
         s.call("raw_r", key=key, bn=bn, es=es, out="R")
         for p in (0, rnd.randrange(1, 1 << 40), M64 - 1):
